@@ -110,7 +110,7 @@ func failureProblems(res *run.Result, exp *ref.Result, f *ref.Task, failProc str
 func c09(args []string) {
 	c := chk.New("C09", "fault_enumeration", args)
 	c.Build(false)
-	c.Rule("generated graphs x every chosen task as the failing one x failure kind {exit non-zero before/mid/after writing, killed by SIGKILL / SIGSEGV, the task's shell killed by SIGKILL / SIGTERM after writing, declared output not produced, output written under another name; Go-function variants; task cannot be formed: empty parameter value, missing tag, invalid output path (space, colon, empty)} while sibling tasks are running; oracle = exit status != 0, no completion report, no final path of the failing task exists, no start event of any transitive dependant; plus output paths that cannot be finalized: an absolute output area on another file system (symlink to /dev/shm), where the commands succeed but the rename out of the temp directory fails - the program must exit non-zero, must not report completion, and no downstream task may run; Go-function tasks also fail by panicking. distinct_nontrivial = distinct (graph shape, failing task, failure kind) in which the failing command really ran (or, for unformable tasks, the workflow was started) and >= 1 sibling task executed")
+	c.Rule("generated graphs x every chosen task as the failing one x failure kind {exit non-zero before/mid/after writing, killed by SIGKILL / SIGSEGV, the task's shell killed by SIGKILL / SIGTERM after writing, declared output not produced, output written under another name; Go-function variants; task cannot be formed: empty parameter value, missing tag, invalid output path (space, colon, empty)} while sibling tasks are running; oracle = exit status != 0, no completion report, no final path of the failing task exists, no start event of any transitive dependant; plus output paths that cannot be finalized: an absolute output area on another file system (symlink to /dev/shm), where the commands succeed but the rename out of the temp directory fails - the program must exit non-zero, must not report completion, and no downstream task may run; twelve tasks failing at the same moment with long error reports (each of them is judged); Go-function tasks also fail by panicking. distinct_nontrivial = distinct (graph shape, failing task, failure kind) in which the failing command really ran (or, for unformable tasks, the workflow was started) and >= 1 sibling task executed")
 	c.Assume("siblings that were already running may finalize their own outputs (os.Exit does not wait) - legal", "orphaned sibling commands are killed by the runner after the workflow process has exited")
 	rng := c.Rand("c09")
 	type job struct {
@@ -238,6 +238,29 @@ func c09(args []string) {
 			jobs = append(jobs, &job{s: s, exp: exp, f: f, mode: mode, bh: vproto.Behaviours{f.Key: {"fail": mode, "sleep": "10"}}, cfg: Cfg{Buf: 128, Procs: []int{1, 2, 4}[k%3]}, idx: -1})
 		}
 	}
+	// many tasks failing at the same moment, each with a long error report: every one of them is a failing task
+	{
+		s := &spec.Spec{Name: "manyfail", MaxTasks: 12, Sources: map[string]string{}}
+		src := &spec.Proc{Name: "src", Kind: spec.KFileSource}
+		for k := 0; k < 12; k++ {
+			f := fmt.Sprintf("mf%02d.txt", k)
+			src.Files = append(src.Files, f)
+			s.Sources[f] = f + "\n"
+		}
+		in := []spec.PortDecl{{Name: "in"}}
+		s.Procs = append(s.Procs, src, &spec.Proc{Name: "F", Kind: spec.KCmd, Cmd: spec.BuildCmd("F", in, []spec.PortDecl{{Name: "out"}}, nil, nil, nil)},
+			&spec.Proc{Name: "D", Kind: spec.KCmd, Cmd: spec.BuildCmd("D", in, []spec.PortDecl{{Name: "out"}}, nil, nil, nil)})
+		s.Conns = append(s.Conns, &spec.Conn{From: "src.out", To: "F.in"}, &spec.Conn{From: "F.out", To: "D.in"})
+		exp := evalRef(s, nil)
+		if exp.Err != "" {
+			c.Broken("reference cannot evaluate the many-failures shape: " + exp.Err)
+		}
+		for k := 0; k < c.Pick(4, 12); k++ {
+			// every task of F fails in the same way after the same delay; the oracle judges all of them (fp = F)
+			mode := []string{"exit-after-write", "exit-mid-write"}[k%2]
+			jobs = append(jobs, &job{s: s, exp: exp, fp: "F", mode: mode, bh: vproto.Behaviours{"F": {"fail": mode, "sleep": "60", "noise": "4000000"}}, cfg: Cfg{Buf: 128, Procs: []int{4, 8}[k%2], NoHooks: k%2 == 1}, idx: -1})
+		}
+	}
 	// a task with a streaming output and a file output (whose port name sorts after the stream's) that does not
 	// produce the file output
 	{
@@ -301,7 +324,7 @@ func c09(args []string) {
 			c.Inconclusive("the failing task never started")
 			return
 		}
-		ps := failureProblems(res, j.exp, j.f, j.fp, j.idx, j.mode == "path-name-too-long" || j.mode == "path-through-regular-file")
+		ps := failureProblems(res, j.exp, j.f, j.fp, j.idx, j.mode == "path-name-too-long" || j.mode == "path-through-regular-file" || j.s.Name == "manyfail")
 		if len(ps) > 0 {
 			who := j.fp
 			if j.f != nil {
